@@ -83,12 +83,42 @@ func checkC04(c *Ctx) {
 	}
 	nw := c.Func(ZapPath, "New")
 	if c.Anchor("R4.4", "zap.New", nw != nil) {
+		// by path exploration (constructor helpers inline): what the new Logger's errorOutput holds when it is handed on
 		ok := false
-		for _, st := range FieldStoresOf(nw, c.Named(ZapPath, "Logger")) {
-			if st.Field == "errorOutput" {
-				ok = strings.HasPrefix(Desc(st.Instr.Val), "Lock(")
-			}
-		}
+		seen := 0
+		ConcPaths(nw, ConcCfg{
+			Event: func(in ssa.Instruction, st *ConcState) string {
+				var obj ssa.Value
+				switch x := in.(type) {
+				case *ssa.Call:
+					if IsCallTo(x, "(*go.uber.org/zap.Logger).WithOptions") {
+						obj = Args(x)[0]
+					}
+				case *ssa.Return:
+					if len(x.Results) == 1 {
+						obj = x.Results[0]
+					}
+				}
+				if obj == nil {
+					return ""
+				}
+				_, _, v := st.FieldOf(obj, "errorOutput")
+				for k := 0; k < 12 && v != nil; k++ {
+					if cl, isCall := v.(*ssa.Call); isCall {
+						seen++
+						if IsCallTo(cl, CorePath+".Lock") {
+							ok = true
+						} else {
+							ok = false
+						}
+						return "errorOutput"
+					}
+					v = st.Step(v)
+				}
+				return ""
+			},
+		})
+		ok = ok && seen > 0
 		c.Check(ok, "R4.4", nw.String(), "locks-stderr", nw.Pos(), "the default error output is zapcore.Lock(os.Stderr)")
 	}
 	lk := c.Func(CorePath, "Lock")
